@@ -1,5 +1,6 @@
 import Mp4ff.Model.Mdat
 import Mp4ff.Lemmas.C08
+import Mp4ff.Expect.Transcribed
 /-!
 # C08 — lazy-mdat mode is observationally equal to in-memory mode
 Property theorems (layout definitions and proofs in `Mp4ff/Lemmas/C08.lean`).  A file is laid out as
@@ -48,5 +49,10 @@ theorem copySampleData_lazy_eq_eager (l : Layout) (h : l.OK) (t : Stbl.Tables) (
 
 example : (⟨[1, 2, 3], [0, 0, 0, 11, 0x6d, 0x64, 0x61, 0x74], [7, 8, 9], [4]⟩ : Layout).OK := by
   simp [Layout.OK, Layout.hl]
+
+/-- the Go functions the models of this property transcribe (committed table `spec/transcribed.json`, checked against
+    the current source by the extractor on every run) all still exist -/
+theorem model_sources_exist :
+    (["Mdat.lean", "SampleTables.lean"] : List String).all Mp4ff.Expect.presentFor = true := by decide +kernel
 
 end Mp4ff.Mdat.C08
